@@ -256,6 +256,51 @@ def rule_inv_guard(ctx, prog, chk):
     return n
 
 
+def rule_par_abs(ctx, prog, chk):
+    """PAR-ABS: inside the cofactor routines the sign of the (signed) curve parameter is never discarded: no bn_abs of, and
+    no constant sign stored into, a value derived from fp_prime_get_par unless the function consults bn_sign of such a
+    value.  The multipliers are polynomials in the parameter (1 - x, x^2 - x - 1 ...): |x| gives the same value only for the
+    curves whose parameter is negative.  Expected count of sign-discarding sites: zero today (kept alive by the miniature)"""
+    n = 0
+    for fn in prog.all:
+        if not c13.MUL_COF.match(fn.name.split("__")[-1]):
+            continue
+        par = set()
+        changed = True
+        while changed:
+            changed = False
+            for el in fn.all_elements():
+                for c in ir.calls_in(fn, el.e):
+                    if not c[1] or not c[2]:
+                        continue
+                    dst = ir.base_var(fn, c[2][0])
+                    if dst is None or dst in par:
+                        continue
+                    if c[1] in c13.PAR_GETTERS or (c[1] in c13.BN_ARITH and any(ir.base_var(fn, a) in par for a in c[2][1:])):
+                        par.add(dst)
+                        changed = True
+        if not par:
+            continue
+        consults = any(c[1] == "bn_sign" and c[2] and ir.base_var(fn, c[2][0]) in par for el in fn.all_elements() for c in ir.calls_in(fn, el.e))
+        n += 1
+        bad = None
+        for el in fn.all_elements():
+            for c in ir.calls_in(fn, el.e):
+                if c[1] == "bn_abs" and len(c[2]) == 2 and ir.base_var(fn, c[2][1]) in par:
+                    bad = bad or (el, fn.fmt(c)[:40])
+            for sub in ir.walk(fn, el.e):
+                if sub[0] == "=":
+                    v, f = engines.lvalue_path(fn, sub[1])
+                    if v in par and f == "sign" and ir.peel(fn, sub[2])[0] == "i":
+                        bad = bad or (el, fn.fmt(sub)[:40])
+        if bad is None or consults:
+            chk.ok("PAR-ABS", fn, "par", "the sign of the curve parameter is never discarded on its way into the multipliers", line=fn.line)
+        else:
+            chk.fail("PAR-ABS", fn, "par", "`%s` discards the sign of a value derived from the curve parameter and the function never consults that sign: the multiplier is right only for "
+                     "curves whose parameter is negative" % bad[1], line=bad[0].line)
+    return n
+
+
 def analyse(ctx, prog, chk):
     n = 0
     used = set()
@@ -302,4 +347,5 @@ def analyse(ctx, prog, chk):
     # the context fields the maps depend on are not accumulated across selections
     from . import c19_hist
     nh = c19_hist.analyse(ctx, prog, chk, field_re=re.compile(r"map"), rule="MAP-HIST")
+    rule_par_abs(ctx, prog, chk)
     return n, nh, rule_rhs_shape(ctx, prog, chk), rule_inv_guard(ctx, prog, chk)
